@@ -757,6 +757,11 @@ def run(prog, rep, tier):
     check_checkpoint_priorities(prog, rep)
     if check_resume_sequential(prog, rep) < 1:
         raise AnalysisError('RESUME-sequential: no **mapping passed to run_seq_simulations')
+    rep.rule('OPTIONS-readonly', 'methods that receive entries of the simulation parameters (saved '
+             'in every checkpoint) do not modify them in place (reaching definitions: the '
+             'parameter binding does not reach an in-place write)')
+    if check_options_readonly(prog, rep) < 2:
+        raise AnalysisError('OPTIONS-readonly: calls handing option entries to methods not found')
     rep.floor('CRASH-typestate', 8)
     rep.floor('RESUME-order', 2)
     rep.floor('RESUME-keys', 3)
@@ -1113,3 +1118,127 @@ def check_checkpoint_priorities(prog, rep):
                       'checkpoint is written before its measurement is taken and a resumed run '
                       'lacks it' % (meas_p[0], save_p[0]), meas_p[1].lineno)
     return 1
+
+
+# ------------------------------------------------------------------ OPTIONS-readonly
+_MUTATORS = {'update', 'pop', 'setdefault', 'append', 'extend', 'insert', 'remove', 'clear',
+             'popitem', 'sort', 'reverse'}
+_FRESH = {'dict', 'deepcopy', 'copy.deepcopy', 'copy.copy'}
+
+
+def _options_derived_locals(g):
+    """names of locals of g whose value is (an element of) something read from self.options"""
+    def from_opts(e, names):
+        # structural: the value IS (an element / a shallow re-packing of) what self.options holds;
+        # the result of any other call (e.g. a file loaded from a name found in the options) is not
+        if isinstance(e, ast.Name):
+            return e.id in names
+        if isinstance(e, ast.Call):
+            if isinstance(e.func, ast.Attribute) and unparse(e.func.value) == 'self.options' and \
+                    e.func.attr in ('get', 'subconfig', 'silent_get', 'setdefault'):
+                return True
+            if call_name(e) in ('list', 'tuple', 'sorted', 'reversed') and e.args:
+                return from_opts(e.args[0], names)
+            return False
+        if isinstance(e, ast.Subscript):
+            return unparse(e.value) == 'self.options' or from_opts(e.value, names)
+        if isinstance(e, ast.BinOp) and isinstance(e.op, ast.Add):
+            return from_opts(e.left, names) or from_opts(e.right, names)
+        if isinstance(e, ast.IfExp):
+            return from_opts(e.body, names) or from_opts(e.orelse, names)
+        return False
+    names = set()
+    changed = True
+    while changed:
+        changed = False
+        for st in ast.walk(g):
+            tg = None
+            if isinstance(st, ast.Assign) and len(st.targets) == 1 and isinstance(
+                    st.targets[0], ast.Name):
+                tg, src = st.targets[0].id, st.value
+            elif isinstance(st, ast.For) and isinstance(st.target, ast.Name):
+                tg, src = st.target.id, st.iter
+            if tg and tg not in names and from_opts(src, names):
+                names.add(tg)
+                changed = True
+    return names
+
+
+def check_options_readonly(prog, rep):
+    """OPTIONS-readonly: the simulation parameters are written into every checkpoint and are what a
+    resumed simulation is built from. A method that receives an entry of these parameters (e.g. the
+    kwargs dict of a `connect_measurements` entry) must not modify it in place: the resumed run
+    would be configured differently from the uninterrupted one."""
+    from ..flow import reaching_defs
+    ct = prog.classtable()
+    n = 0
+    for rel in ('tenpy/simulations/simulation.py', 'tenpy/simulations/time_evolution.py',
+                'tenpy/simulations/ground_state_search.py',
+                'tenpy/simulations/post_processing.py'):
+        m = prog.module(rel)
+        for gq, g in m.functions.items():
+            if '.' not in gq:
+                continue
+            cname = gq.split('.')[0]
+            ci = ct.get(cname)
+            if ci is None:
+                continue
+            opt = _options_derived_locals(g)
+            for c in ast.walk(g):
+                if not (isinstance(c, ast.Call) and isinstance(c.func, ast.Attribute)):
+                    continue
+                starred = [a for a in c.args if isinstance(a, ast.Starred) and isinstance(
+                    a.value, ast.Name) and a.value.id in opt]
+                direct = [(i, a) for i, a in enumerate(c.args) if isinstance(a, ast.Name)
+                          and a.id in opt]
+                if not starred and not direct:
+                    continue
+                if unparse(c.func.value) == 'self':
+                    owner, f = ct.resolve_method(ci, c.func.attr)
+                else:
+                    # another receiver: the method name must identify one definition
+                    defs = [(k, k.methods[c.func.attr]) for k in ct.all
+                            if c.func.attr in k.methods]
+                    owner, f = defs[0] if len(defs) == 1 else (None, None)
+                if f is None:
+                    continue
+                ps = [p for p in params(f) if p not in ('self', 'cls')]
+                if starred:
+                    first = min(i for i, a in enumerate(c.args) if isinstance(a, ast.Starred))
+                    owned = set(ps[first:])
+                else:
+                    owned = {ps[i] for i, _ in direct if i < len(ps)}
+                if not owned:
+                    continue
+                cfg, rd = reaching_defs(f)
+                bad = []
+                for st in stmts_of(f):
+                    if isinstance(st, (ast.If, ast.For, ast.While, ast.Try, ast.With)):
+                        continue
+                    for x in ast.walk(st):
+                        nm = None
+                        if isinstance(x, ast.Subscript) and isinstance(
+                                x.ctx, (ast.Store, ast.Del)) and isinstance(x.value, ast.Name):
+                            nm = x.value.id
+                        elif isinstance(x, ast.Call) and isinstance(x.func, ast.Attribute) and \
+                                x.func.attr in _MUTATORS and isinstance(x.func.value, ast.Name):
+                            nm = x.func.value.id
+                        elif isinstance(x, ast.AugAssign) and isinstance(x.target, ast.Name):
+                            nm = x.target.id if isinstance(x.op, (ast.BitOr, ast.Add)) else None
+                        if nm in owned and any('<param>' in dict(rd.get(nd.id, ())).get(nm, ())
+                                               for nd in cfg.nodes_of(st)):
+                            bad.append((st, nm))
+                n += 1
+                fq = '%s.%s' % (getattr(owner, 'name', cname), f.name)
+                rep.instance('OPTIONS-readonly', {'caller': gq, 'callee': fq,
+                                                  'owned_params': sorted(owned),
+                                                  'in_place_writes': len(bad)})
+                for st, nm in bad:
+                    rep.violation('OPTIONS-readonly', prog.module(getattr(
+                        getattr(owner, 'module', None), 'relpath', rel)), fq,
+                        'writes-option-entry:%s' % nm,
+                        '`%s` modifies `%s`, which %s passes in from the simulation parameters '
+                        '(self.options); they are saved in every checkpoint, so the resumed '
+                        'simulation is configured without / with the changed entry'
+                        % (key_text(st)[:60], nm, gq), st.lineno)
+    return n
